@@ -44,7 +44,15 @@ Theorem three_spellings :
   seg_part
     (SDot (ac (Ascii.Ascii false true false false false true true false)) [ac (Ascii.Ascii false false false false true true false false)]) =
   "b0" /\
-  seg_ok (SDot (ac (Ascii.Ascii false true false false false true true false)) [ac (Ascii.Ascii false false false false true true false false)]).
+  seg_ok (SDot (ac (Ascii.Ascii false true false false false true true false)) [ac (Ascii.Ascii false false false false true true false false)]) /\
+  seg_part
+    (SIdx (ac (Ascii.Ascii true true false true true false true false)) [] (ac (Ascii.Ascii false false false false false true true false))
+       [ac (Ascii.Ascii false false false false true true false false)] (ac (Ascii.Ascii false false false false false true true false))
+       [Atoms.sp] (ac (Ascii.Ascii true false true true true false true false)) "0") = "0" /\
+  seg_ok
+    (SIdx (ac (Ascii.Ascii true true false true true false true false)) [] (ac (Ascii.Ascii false false false false false true true false))
+       [ac (Ascii.Ascii false false false false true true false false)] (ac (Ascii.Ascii false false false false false true true false))
+       [Atoms.sp] (ac (Ascii.Ascii true false true true true false true false)) "0").
 Proof. exact Spell.three_spellings. Qed.
 Print Assumptions three_spellings.
 
@@ -73,4 +81,14 @@ Theorem c07_eval_ignores_selector_type :
   same_paths a b -> eval re cfg ls a d = eval re cfg ls b d.
 Proof. exact C07b.c07_eval_ignores_selector_type. Qed.
 Print Assumptions c07_eval_ignores_selector_type.
+
+
+(* a bracket part may be written in back quotes as well (seg_ok's quoted_body); a carriage return inside back quotes is dropped *)
+Theorem raw_part_drops_cr :
+  seg_ok
+    (SIdx (ac (Ascii.Ascii true true false true true false true false)) [] (ac (Ascii.Ascii false false false false false true true false))
+       [ac (Ascii.Ascii false true false false false true true false); ac (Ascii.ascii_of_nat 13)]
+       (ac (Ascii.Ascii false false false false false true true false)) [] (ac (Ascii.Ascii true false true true true false true false)) "b").
+Proof. exact Spell.raw_part_drops_cr. Qed.
+Print Assumptions raw_part_drops_cr.
 
